@@ -261,6 +261,23 @@ func (e *Exec) patternIntrinsicHarness(fn *ssa.Function, name string) Intrinsic 
 			st.Overrides = nm
 			return ret1(st, nil)
 		}
+	case "vUF":
+		// vUF(name, args...): an uninterpreted function of big integers: equal argument terms give the same result
+		return func(e *Exec, st *State, fn *ssa.Function, args []Value, depth int) []Outcome {
+			name := e.nameArg(args[0])
+			key := "uf:" + name
+			if s, ok := args[1].(Slice); ok && s.Len > 0 {
+				for _, el := range e.sliceElems(st, s) {
+					key += fmt.Sprintf(":%d", e.bigGet(st, el).id)
+				}
+			}
+			if v, ok := e.defKey[key]; ok {
+				return ret1(st, e.newBig(st, v[0]))
+			}
+			t := e.TS.Fresh("uf_"+name, SInt)
+			e.defKey[key] = []*Term{t}
+			return ret1(st, e.newBig(st, t))
+		}
 	case "vNative":
 		return func(e *Exec, st *State, fn *ssa.Function, args []Value, depth int) []Outcome {
 			return ret1(st, e.TS.Bool(false))
